@@ -726,6 +726,8 @@ class Builder:
                     self.make_resource(m, f"{pkg}.{m['name']}", host)
             # services
             svc_ok = (not sub) or self.p["services_in_subpackages"]
+            if not svc_ok and _p(self.draw, 0.3):
+                self.excluded.append("F-subpackage-services")     # known finding: steer away, counted
             want_svc = svc_ok and (fi == nfiles - 1 and not any(f["services"] for f in api["files"]) or (svc_ok and self.d(st.booleans())))
             if want_svc:
                 for _ in range(self.d(st.integers(1, self.p["max_services"]))):
